@@ -477,7 +477,7 @@ func init() {
 		Level:      "model_checking",
 		SingleProc: true,
 		Rule: "real server (service.New+Run over the virtual listener) with recording handlers; (a) every sequence of 1..2 terminal messages (thorough 3 on a reduced alphabet) from {17 default IDs + 2 unsupported} x {2013,2019} x serials {0,1,65535} x 2 phones (+ wrong auth code, 0x0801 with escape-byte media ID, too-short 2019 0x0102), each on a fresh connection under the run-to-block schedule, one frame per read and all coalesced; " +
-			"(b) one connection carried through 65540 heartbeats (serial wrap); (c) representative histories on one and two concurrent connections under ALL schedules within the deviation bound (2 quick, 3 thorough); (d) EVERY thread interleaving (no preemption bound) of the same histories with the default environment answers, using a cache of happens-before state keys validated per run by a self-test and by harness digests (counters unbounded_*: scenarios closed / stopped at the state limit of 40000 quick, 3000000 thorough). " +
+			"(b) one connection carried through 65540 heartbeats (serial wrap); (c) representative histories on one and two concurrent connections under ALL schedules within the deviation bound (2 quick, 3 thorough); (d) EVERY thread interleaving (no preemption bound) of the same histories with the default environment answers, using a cache of happens-before state keys validated per run by a self-test and by harness digests (the flag exhaustive refers to (a)-(c); counters unbounded_*: scenarios closed / stopped at the state limit of 40000 quick, 1000000 thorough). " +
 			"states = distinct happens-before state keys, transitions = scheduler steps. Non-trivial = history of >=2 messages or schedule with >=1 deviation",
 		Assumptions: []string{"reply table harness/ref/reply.go written from JT/T 808 and the property text", "socket model vnet: byte stream, segmentation chosen by the harness",
 			"scheduling points are channel/socket/once/sleep operations (complete for race-free executions; races are C18's subject)"},
